@@ -61,10 +61,27 @@ type xFlagKey struct{}
 
 // xErr builds the error of a failing resolver; the Go shape of the error depends on the code so
 // that every shape occurs: safe, wrapped-as-safe, plain, %w-wrapping of a safe error, panic.
+// application error types that declare themselves safe for clients through the exported interface
+type xAppErr struct{ code int }
+
+func (e xAppErr) Error() string          { return fmt.Sprintf("S%d", e.code) }
+func (e xAppErr) SanitizedError() string { return fmt.Sprintf("S%d", e.code) }
+
+type xAppErrP struct{ code int }
+
+func (e *xAppErrP) Error() string          { return fmt.Sprintf("S%d", e.code) }
+func (e *xAppErrP) SanitizedError() string { return fmt.Sprintf("S%d", e.code) }
+
 func xErr(v *xVal) error {
 	if v.Safe {
-		if v.Code%2 == 0 {
+		switch v.Code % 4 {
+		case 0:
 			return graphql.NewSafeError("S%d", v.Code)
+		case 2:
+			if v.Code%8 == 2 {
+				return xAppErr{v.Code}
+			}
+			return &xAppErrP{v.Code}
 		}
 		return graphql.WrapAsSafeError(fmt.Errorf("inner-secret-%d", v.Code), "S%d", v.Code)
 	}
